@@ -97,29 +97,48 @@ def joint(case):
 
 
 def _run_real(case, strategy, record=None):
-    """run the real idc_star; `record` (a list) receives every inner id_star call as (event, kwargs, result | exception)"""
+    """run the real idc_star.  `record` (a dict) receives, without changing any behaviour:
+    record["id_star"]  : every inner id_star call as (event, kwargs, result | exception)
+    record["levels"]   : the (outcomes, conditions) of every (recursive) idc_star call
+    record["reassoc"]  : the (new_outcomes, new_conditions) returned by get_new_outcomes_and_conditions, per level"""
     import importlib
 
     import networkx as nx
-    from y0.algorithm.identify import Unidentifiable, idc_star
+    from y0.algorithm.identify import Unidentifiable
 
     idc = importlib.import_module("y0.algorithm.identify.idc_star")
     graph = G.to_nx_mixed(case["g"])
-    orig = idc.id_star
-
-    def recording(g, event, **kw):
-        try:
-            r = orig(g, event, **kw)
-        except Exception as e:
-            record.append((dict(event), dict(kw), e))
-            raise
-        record.append((dict(event), dict(kw), r))
-        return r
-    if record is not None:
-        idc.id_star = recording
+    orig_id, orig_idc = idc.id_star, idc.idc_star
     try:
         with K.fixed_orders_idc(strategy):
-            est = idc_star(graph, K.dec_event(case["outcomes"]), K.dec_event(case["conditions"]))
+            if record is not None:
+                record.update({"id_star": [], "levels": [], "reassoc": []})
+                orig_new = idc.get_new_outcomes_and_conditions
+
+                def rec_id(g, event, **kw):
+                    try:
+                        r = orig_id(g, event, **kw)
+                    except Exception as e:
+                        record["id_star"].append((dict(event), dict(kw), e))
+                        raise
+                    record["id_star"].append((dict(event), dict(kw), r))
+                    return r
+
+                def rec_idc(g, outcomes, conditions, **kw):
+                    record["levels"].append((dict(outcomes), dict(conditions)))
+                    return orig_idc(g, outcomes, conditions, **kw)
+
+                def rec_new(new_event, outcomes, conditions):
+                    r = orig_new(new_event, outcomes, conditions)
+                    record["reassoc"].append((dict(r[0]), dict(r[1])))
+                    return r
+                idc.id_star, idc.idc_star, idc.get_new_outcomes_and_conditions = rec_id, rec_idc, rec_new
+                try:
+                    est = rec_idc(graph, K.dec_event(case["outcomes"]), K.dec_event(case["conditions"]))
+                finally:
+                    idc.get_new_outcomes_and_conditions = orig_new
+            else:
+                est = orig_idc(graph, K.dec_event(case["outcomes"]), K.dec_event(case["conditions"]))
     except Unidentifiable:
         return ["unidentifiable"], None
     except ValueError as e:
@@ -130,7 +149,7 @@ def _run_real(case, strategy, record=None):
             AttributeError, IndexError) as e:
         return ["err"], type(e).__name__
     finally:
-        idc.id_star = orig
+        idc.id_star, idc.idc_star = orig_id, orig_idc
     return ["ok", K.canon_expr(E.to_str_tree(E.enc_expr(est)))], None
 
 
@@ -142,49 +161,85 @@ def certainly_impossible(ev):
     return False
 
 
-def _line5_call(case, strategy):
-    """the event and the answer of the `id_star` call of line 5 (the one that produced the final estimand), if any"""
+def _ratio_differs(g, pair1, pair2, seed, n_models):
+    """do P(o1, c1)/P(c1) and P(o2, c2)/P(c2) differ in some sampled model (both conditions possible there)?"""
+    import random as _r
+
+    rng = _r.Random(seed)
+    (o1, c1), (o2, c2) = pair1, pair2
+    j1, j2 = K.sort_event(_union(o1, c1)), K.sort_event(_union(o2, c2))
+    for k in range(n_models):
+        m = S.Fscm(g["nodes"], g["di"], g["bi"], rng, max_card=2 if k < n_models // 2 else 3)
+        nu = S.rand_nu(m, rng)
+        try:
+            d1 = m.prob(S.event_items(c1, nu)) if c1 else 1
+            d2 = m.prob(S.event_items(c2, nu)) if c2 else 1
+            if d1 == 0 or d2 == 0:
+                continue
+            if m.prob(S.event_items(j1, nu)) / d1 != m.prob(S.event_items(j2, nu)) / d2:
+                return True
+        except KeyError:
+            return False
+    return False
+
+
+def _union(o, c):
+    seen = {}
+    for var, val in list(o) + list(c):
+        seen[C.enc(var)] = [var, val]
+    return list(seen.values())
+
+
+def _explain(case, strategy, n_models):
+    """Which step of IDC* first breaks the chain  P(outcomes | conditions) = ... ?  Returns (kind, detail) with kind in
+    'reassociation' (get_new_outcomes_and_conditions changed the conditional probability), 'exchange' (the line-4 exchange of
+    a condition for an intervention changed it), 'inherited' (the final id_star call is wrong by itself: C07), or None."""
     from y0.dsl import Expression
 
-    rec = []
+    rec = {}
     _run_real(case, strategy, record=rec)
-    calls = [c for c in rec if "_number_recursions" in c[1]]
-    if not calls or not isinstance(calls[-1][2], Expression):
-        return None
-    event, _, est = calls[-1]
-    return K.enc_event(event), ["ok", K.canon_expr(E.to_str_tree(E.enc_expr(est)))]
-
-
-def _inherited(case, strategy, n_models):
-    """is the failure explained by a wrong answer of ID* itself (property C07) in the line-5 call?  returns the C07
-    failure (case07, kind07) or None"""
-    call = _line5_call(case, strategy)
-    if call is None:
-        return None
-    ev, res = call
-    case07 = {"g": case["g"], "event": ev, "seed": case.get("seed", 0)}
-    if not C18._in_domain(case07):
-        return None
-    fail, kind = C07._judge(case07, res, None, n_models)
-    return (case07, kind) if fail else None
+    g = {"nodes": G.all_nodes(case["g"]), "di": case["g"]["di"], "bi": case["g"]["bi"]}
+    levels = [(K.enc_event(o), K.enc_event(c)) for o, c in rec.get("levels", [])]
+    reassoc = [(K.enc_event(o), K.enc_event(c)) for o, c in rec.get("reassoc", [])]
+    seed = case.get("seed", 0)
+    in_dom = lambda pr: all(S.consistent_subscripts(e) for e in pr)   # noqa: E731
+    for i, lv in enumerate(levels):
+        if i < len(reassoc):
+            if in_dom(lv) and in_dom(reassoc[i]) and _ratio_differs(g, lv, reassoc[i], seed, n_models):
+                return "reassociation", {"level": i, "before": lv, "after": reassoc[i]}
+            if i + 1 < len(levels) and in_dom(reassoc[i]) and in_dom(levels[i + 1]) and \
+                    _ratio_differs(g, reassoc[i], levels[i + 1], seed, n_models):
+                return "exchange", {"level": i, "before": reassoc[i], "after": levels[i + 1]}
+    calls = [c for c in rec.get("id_star", []) if "_number_recursions" in c[1]]
+    if calls and isinstance(calls[-1][2], Expression):
+        event, _, est = calls[-1]
+        case07 = {"g": case["g"], "event": K.enc_event(event), "seed": seed}
+        if C18._in_domain(case07):
+            res = ["ok", K.canon_expr(E.to_str_tree(E.enc_expr(est)))]
+            fail, kind = C07._judge(case07, res, None, n_models)
+            if fail:
+                return "inherited", {"case07": case07, "kind07": kind}
+    return None, None
 
 
 def _f11_repaired(case, expr):
-    """if `expr` is `num / Sum[R](num)` (what Expression.conditional builds), the same fraction with R replaced by the FREE
-    outcome variables of `num` that are not conditioned on"""
+    """if `expr` is `num / Sum[R](num)` (what Expression.conditional builds): the same fraction normalised over the FREE
+    outcome variables of `num` among R only, as a marginalisation of outcome occurrences (F11 repaired: no sum over
+    variables that are bound inside `num` or occur only as subscripts, no capture of subscripts)"""
     if isinstance(expr, str) or expr[0] != "frac":
         return None
     num, den = expr[1], expr[2]
-    if den != num and not (den[0] == "sum" and den[2] == num):
+    if den == num:
+        ranges = []
+    elif den[0] == "sum" and den[2] == num:
+        ranges = [int(v[1]) for v in den[1]]
+    else:
         return None
     free = set()
     for fn in S.free_names(num):
         free |= fn
-    keep = sorted(free - {int(var[1]) for var, _ in case["conditions"]})
-    den2 = ["sum", [K.canon_var(K.mkvar(n)) for n in keep], num] if keep else num
-    if den2 == den:
-        return None
-    return ["frac", num, den2]
+    keep = sorted(n for n in ranges if n in free)
+    return ["frac", num, ["osum", [K.canon_var(K.mkvar(n)) for n in keep], num] if keep else num]
 
 
 def _judge(case, res, exc, n_models, strategy=None):
@@ -211,9 +266,11 @@ def _judge(case, res, exc, n_models, strategy=None):
         if w is None:
             return None, None
         msg, kind = f"estimand {expr} differs from P(outcomes, conditions) / P(conditions): {w}", "value"
-    inh = _inherited(case, strategy, n_models)
-    if inh is not None:
-        return msg + f" [explained by the inner ID* call on {inh[0]['event']}]", "inherited"
+    why, detail = _explain(case, strategy, n_models)
+    if why == "inherited":
+        return msg + f" [explained by the inner ID* call on {detail['case07']['event']}]", "inherited"
+    if why is not None:
+        return msg + f" [first broken step: {why}: {detail['before']} -> {detail['after']}]", why
     if kind == "value":
         rep = _f11_repaired(case, expr)
         if rep is not None and S.check_estimand(g, jt, rep, case.get("seed", 0), n_models=n_models, cond=cond) is None:
@@ -259,16 +316,18 @@ def _evaluate(case, n_models=8, with_unpatched=True):
     return {"by_order": by_order, "unpatched": r0, "fail": fail, "kind": kind, "in_domain": dom, "strategy": fail_strategy}
 
 
+COARSE = ("F11", "inherited", "reassociation", "exchange")
+
+
 def _coarse_key(case, r):
-    """finding key of the failures that are explained by another listed defect"""
-    if r["kind"] == "F11":
-        return json.dumps(["F11"])
+    """finding key of the failures that are explained by an identified broken step / another listed defect"""
+    if r["kind"] in ("F11", "reassociation", "exchange"):
+        return json.dumps([r["kind"]])
     if r["kind"] == "inherited":
-        inh = _inherited(case, r["strategy"], 8)
-        if inh is None:
+        why, detail = _explain(case, r["strategy"], 8)
+        if why != "inherited":
             return json.dumps(["inherited", "unreproducible"])
-        case07, kind07 = inh
-        _, key07 = C07.SHRINK.shrink_to_key(case07, kind07)
+        _, key07 = C07.SHRINK.shrink_to_key(detail["case07"], detail["kind07"])
         return json.dumps(["inherited", json.loads(key07)])
     return None
 
@@ -299,7 +358,7 @@ def run_python(case):
     nontrivial = r["in_domain"] and K.n_worlds(jt) >= 1 and bool(case["g"]["di"] or case["g"]["bi"]) and \
         shape in ("P", "sum", "prod", "frac", "unidentifiable", "zero")
     out = {"out": ["orders", by_order], "fail": r["fail"], "nontrivial": bool(nontrivial), "tags": tags}
-    if r["fail"] and r["kind"] in ("F11", "inherited"):
+    if r["fail"] and r["kind"] in COARSE:
         out["finding_key"] = _coarse_key(case, r)
     elif r["fail"] and not case.get("_noshrink"):
         small, key = SHRINK.shrink_to_key(case, r["kind"])
@@ -339,7 +398,7 @@ def shrink(case):
     if case.get("_noshrink"):
         return
     r = _evaluate(case)
-    if r["fail"] and r["kind"] not in ("F11", "inherited"):
+    if r["fail"] and r["kind"] not in COARSE:
         small, _ = SHRINK.shrink_to_key(case, r["kind"])
         yield dict(small, _noshrink=True)
 
